@@ -23,8 +23,8 @@ def main():
         signature=lambda r: "%s bracket=%s fault=%s" % (r.get("function", "?"), r.get("bracket", "?"), r.get("fault", "?")) if r.get("case") else r.get("detail", "")[:100],
         exhaustive={"quick": True, "thorough": True}, nontrivial_key="fault_reached", fault_kinds_key="fault_kinds_reached",
         rule="complete enumeration of (6 functions with a known root: affine, cubic non-monotone, atan, exp-2, x^2-4 with a flat start, sign(x)sqrt|x| with an infinite derivative at the root) x "
-             "(bracket: none / valid / valid reversed / same-sign / one-sided) x (initial guess inside, outside the bracket, at a flat point or next to the root) x (criterion on |f| or on |dx|) x "
-             "(iteration budget im) x (NaN regions of the domain) x every set of <= 2 (quick) / <= 3 (thorough) faulty evaluations among the first 3+2*im x fault kind (value NaN/+inf/-inf, derivative 0/NaN/+inf); "
+             "(bracket: none / valid / valid reversed / same-sign / one-sided) x (initial guess inside, outside the bracket, at a flat point, next to the root or exactly at the root) x (criterion on |f| or on |dx|) x "
+             "(iteration budget im) x (NaN regions of the domain) x every set of <= 2 (quick) / <= 3 (thorough) faulty evaluations among the first 3+2*im x fault kind (value NaN/-NaN/+inf/-inf, derivative 0/NaN/-NaN/+inf); "
              "non-trivial = a fault was actually returned to the algorithm; cases are distinct by construction",
         assumptions=["only the fault clauses of C09 are decided, on the recorded history of calls to the function and to the criterion",
                      "bracket confinement is demanded only when both ends of the supplied bracket were evaluated without fault and gave finite values of strictly opposite signs; the initial guess itself may lie outside",
